@@ -7,6 +7,7 @@ import Mkdb.Driver.Csv
 import Mkdb.Driver.Exec
 import Mkdb.Driver.Db
 import Mkdb.Driver.Sess
+import Mkdb.Driver.Lock
 open Mkdb.Driver
 
 def main (args : List String) : IO UInt32 := do
@@ -31,4 +32,6 @@ def main (args : List String) : IO UInt32 := do
   | ["judge", "db"] => judgeLoop stdin stdout ({} : Db.J) Db.judgeLine; return 0
   | ["model", "sess"] => modelLoop stdin stdout ({} : Sess.St) Sess.stepLine; return 0
   | ["judge", "sess"] => judgeLoop stdin stdout ({} : Sess.J) Sess.judgeLine; return 0
+  | ["model", "lock"] => modelLoop stdin stdout () Lock.stepLine; return 0
+  | ["judge", "lock"] => judgeLoop stdin stdout "?" Lock.judgeLine; return 0
   | _ => IO.eprintln "usage: mkdbdrv model|judge <proto>"; return 2
